@@ -9,6 +9,22 @@ import Midgard.Model.Geodetic
 
 namespace Midgard.Geo
 
+/-! ### which ellipsoid the public wrappers `trs2llh` / `llh2trs` evaluate on -/
+
+/-- where an ellipsoid can come from: the explicit `ellipsoid=` argument, the `.ellipsoid` carried by the array
+argument (a position object), the module default `GRS80` -/
+inductive ResSrc | explicitArg | carried | default
+  deriving Repr, DecidableEq
+
+/-- the wrapper's rule as an order of preference (read off the source): the first source that is available decides;
+`[]` (a rule the extractor does not understand) decides nothing -/
+def resolveEllipsoid (order : List ResSrc) (explicit carried : Option Nat) : Option Nat :=
+  match order with
+  | [] => none
+  | .explicitArg :: rest => match explicit with | some e => some e | none => resolveEllipsoid rest explicit carried
+  | .carried :: rest => match carried with | some c => some c | none => resolveEllipsoid rest explicit carried
+  | .default :: _ => some defaultEll
+
 inductive SelTgt | lat | height
   deriving Repr, DecidableEq
 
